@@ -388,6 +388,8 @@ def run(ctx):
             for alt in (zlib.compress(d, 0), cc.py_stored(d, block=7) if len(d) < 400 else cc.py_stored(d, block=65535)):
                 nonu_lines.append("nonu %x %s" % (len(d), cc.hx(alt))); nonu_expect.append("ok " + cc.hx(d))
     outs, incs = cc.run_harness(ctx, exes["nzs"], nonu_lines, timeout=170)
+    for (k, kind, e) in incs:
+        ctx.violation("static-%s" % kind.lower(), "case %s: %s %s" % (nonu_lines[k][:60], kind, e[:300]), dict(op="line", line=nonu_lines[k][:4000], variant="nzs"))
     mods = cc.run_model(ctx, "c06", nonu_lines, timeout=600)
     for k, l in enumerate(nonu_lines):
         ctx.count_case(("nonu", l), nontrivial=True)
